@@ -124,7 +124,10 @@ def build():
     w.trusted.append('calls into the expression compiler from try_type_rewrite (class_set, scoped_set, compile_where_clause, expression_set, ensure_stmt, dispatch.compile, create_anchor, '
                      'get_rewrite_filter) are assumed only to keep every registered key of the environment\'s rewrite table (possibly in a new dict object) and to raise QueryError at most')
     w.refclass('StmtT', {'where': 'Obj'})
-    XF = {'setgen.class_set': comp({'stype': 'TypeT', 'skip_subtypes': 'bool', 'ctx': 'Ctx'}),
+    # the base set of the rewrite filed under (stype, skip_subtypes=True) must not range over the subtypes (it is read where only the type itself is meant: the
+    # subtypes with policies of their own get their own rewrites); same when the children are handled separately.  A proof obligation at the call site.
+    BASE_REQ = dict(bind={'K_skipreq': 'skip_subtypes', 'K_chp': 'children_have_policies'}, requires=['implies(K_skipreq or K_chp, skip_subtypes)'])
+    XF = {'setgen.class_set': comp({'stype': 'TypeT', 'skip_subtypes': 'bool', 'ctx': 'Ctx'}, **BASE_REQ),
           'setgen.scoped_set': comp({'stmt': 'StmtT', 'ctx': 'Ctx'}),
           'clauses.compile_where_clause': comp({'where': 'Opt[Obj]', 'ctx': 'Ctx'}),
           'get_rewrite_filter': comp({'stype': 'TypeT', 'mode': 'AccessKind', 'ctx': 'Ctx'}, returns='Opt[Obj]'),
@@ -159,7 +162,7 @@ def build():
     def gcomp(params, returns='Obj', **kw):
         d = dict(COMPILE); d['ensures'] = [OWN_KEPT]; d['bind'] = BIND; d['params'] = params; d['returns'] = returns; d.update(kw); return d
     XG = dict(XF)
-    XG.update({'setgen.class_set': gcomp({'stype': 'TypeT', 'skip_subtypes': 'bool', 'ctx': 'Ctx'}), 'setgen.scoped_set': gcomp({'stmt': 'StmtT', 'ctx': 'Ctx'}),
+    XG.update({'setgen.class_set': gcomp({'stype': 'TypeT', 'skip_subtypes': 'bool', 'ctx': 'Ctx'}, bind=dict(BIND, **BASE_REQ['bind']), requires=BASE_REQ['requires']), 'setgen.scoped_set': gcomp({'stmt': 'StmtT', 'ctx': 'Ctx'}),
                'clauses.compile_where_clause': gcomp({'where': 'Opt[Obj]', 'ctx': 'Ctx'}), 'dispatch.compile': gcomp({'expr': 'Obj', 'ctx': 'Ctx'}),
                'get_rewrite_filter': gcomp({'stype': 'TypeT', 'mode': 'AccessKind', 'ctx': 'Ctx'}, returns='Opt[Obj]')})
     OWN_BLOCK = 'implies(old((stype, skip_subtypes) in ctx.env.type_rewrites), (stype, skip_subtypes) in ctx.env.type_rewrites)'
@@ -366,10 +369,13 @@ def build():
     #     only for the types listed there and for object types outside the standard library
     w.classes['Obj']['module'] = 'Obj'; w.opaque_exprs['s_schema.STD_MODULES'] = 'Set[Obj]'
     w.ufunc('UQN', ['Obj'], 'Obj')
+    w.ufunc('TNAME', ['TypeT', 'Obj'], 'Obj'); w.ext_methods['TypeT.get_name'] = dict(params={'schema': 'Obj'}, returns='Obj', returns_expr='TNAME(self, schema)')
     w.contract(POL, 'should_ignore_rewrite', params={'stype': 'TypeT', 'ctx': 'Ctx'}, returns='bool',
         ensures=['implies(result, len(ctx.suppress_rewrites) > 0)',
                  'implies(len(ctx.suppress_rewrites) > 0 and stype in ctx.suppress_rewrites, result)',
-                 'implies(result and stype not in ctx.suppress_rewrites, isinstance(stype, s_objtypes.ObjectType))'],
+                 'implies(result and stype not in ctx.suppress_rewrites, isinstance(stype, s_objtypes.ObjectType))',
+                 # types of the standard library keep their policies even inside a user policy: decided by the type's MODULE
+                 'implies(result and stype not in ctx.suppress_rewrites, not (UQN(TNAME(stype, ctx.env.schema).module) in s_schema.STD_MODULES))'],
         hints={'ext_funcs': {'s_name.UnqualName': dict(params={'n': 'Obj'}, returns='Obj', returns_expr='UQN(n)')}})
 
     # F10  pgsql/compiler/pathctx.py has_type_rewrite / link_needs_type_rewrite (decides whether the `.id` shortcut through an inline link column may skip the join with the target):
